@@ -6,6 +6,14 @@ every await is gated by the harness, driven on a private asyncio loop; the sched
 actions, task starts, wake-ups) is replayed on the Lean transition system `Ptk.Model.C15`
 and the observable state is compared after every step.  Oracle: the property restated over
 the real objects after every step.
+
+Three families of cases:
+  * asynchronous sources (gated async completer / validator / suggester),
+  * threaded sources ("thr": ThreadedCompleter / ThreadedValidator / ThreadedAutoSuggest around gated
+    synchronous user code; every executor job and every item of the completer thread is released by the
+    schedule),
+  * the hand-off alone ("fam": "hand": generator_to_async_generator with a small buffer_size, real queue
+    and real one-second timeouts; model `Ptk.Model.C15Thread`).
 """
 from __future__ import annotations
 
@@ -13,6 +21,8 @@ import asyncio
 import os
 import subprocess
 import sys
+import threading
+import time
 import warnings
 
 sys.path.insert(0, os.path.dirname(os.path.abspath(__file__)))
@@ -21,57 +31,137 @@ from core import enc_str
 
 from prompt_toolkit.application import Application
 from prompt_toolkit.application.current import set_app
-from prompt_toolkit.auto_suggest import AutoSuggest, Suggestion
+from prompt_toolkit.auto_suggest import AutoSuggest, AutoSuggestFromHistory, Suggestion, ThreadedAutoSuggest
+from prompt_toolkit.history import InMemoryHistory
 from prompt_toolkit.buffer import Buffer, ValidationState
-from prompt_toolkit.completion import Completer, Completion
+from prompt_toolkit.completion import Completer, Completion, ThreadedCompleter
 from prompt_toolkit.document import Document
 from prompt_toolkit.input import DummyInput
 from prompt_toolkit.key_binding.bindings.completion import generate_completions
+from prompt_toolkit.layout.processors import AppendAutoSuggestion, TransformationInput
 from prompt_toolkit.output import DummyOutput
-from prompt_toolkit.validation import ValidationError, Validator
+from prompt_toolkit.validation import ThreadedValidator, ValidationError, Validator
+from prompt_toolkit.eventloop.async_generator import aclosing, generator_to_async_generator
 
 ID = "C15"
 DRIVER = "drv_c15"
-PROPS = ["Ptk.Props.C15", "Ptk.Props.C15Inv", "Ptk.Props.C15Common"]
-LEVEL_TEXT = ("Lean 4 invariants over a labelled transition system of Buffer's completer / validator / "
-              "auto-suggest coroutines (cut at their awaits) interleaved with user edits: every reachable "
-              "state, after any finite schedule, has text = original + selected completion, completions "
-              "computed for the original document, verdict and suggestion computed for the current text, "
-              "at most one coroutine of each kind running; cycling and cancel laws. The model is tied to "
-              "/repo on every run by replaying model-enumerated and random schedules on a real Buffer "
-              "whose awaits are gated, plus the property oracle on the real objects")
-LEVEL_NOTE = ("partial: atomicity of code between two awaits is asyncio's (assumed); ThreadedCompleter / "
-              "ThreadedValidator / ThreadedAutoSuggest thread hand-off, task cancellation and selection "
-              "state are not modelled; the model is hand-written and validated by the correspondence")
-RULE = ("exhaustive: for each configuration (feature flags x scripted completer x initial document) the Lean "
-        "driver enumerates breadth-first every schedule over the action alphabet up to the tier's depth, "
-        "merging equal model states, and emits a path for every transition; each path is replayed on the real "
-        "Buffer (tasks started only when the schedule says so). Then seeded random schedules up to 40 steps in "
-        "both scheduling modes (explicit task start / natural asyncio FIFO order). A case is non-trivial when "
-        "at least one coroutine segment ran between user actions")
+PROPS = ["Ptk.Props.C15", "Ptk.Props.C15Threaded", "Ptk.Props.C15Ops", "Ptk.Props.C15Suggest", "Ptk.Props.C15Thread",
+         "Ptk.Props.C15Sched",
+         "Ptk.Props.C15Inv", "Ptk.Props.C15Common"]
+LEVEL_TEXT = ("Lean 4 invariants over a labelled transition system of Buffer's completer / validator / auto-suggest "
+              "coroutines (cut at their awaits) interleaved with user edits, selection changes, Buffer.reset and task "
+              "cancellation, with asynchronous or threaded sources (ThreadedCompleter's hand-off — producer thread, "
+              "bounded queue, q.get jobs, `quitting` flag — as a micro-step transition system): every reachable state, "
+              "after any finite schedule, has text = original + selected completion, completions computed for the "
+              "original document (through the queue: exactly a prefix of the completer's items, in order), verdict and "
+              "suggestion computed for the current text (the suggestion is drawn only with the cursor at the end), at "
+              "most one coroutine and one producer thread of each kind; an abandoned producer returns within five of "
+              "its steps having asked for at most one more item, a full or empty queue never makes producer and "
+              "consumer wait for each other; cycling with any count with/without wrap-around, cancel, select_first / "
+              "select_last / insert_common_part laws; AutoSuggestFromHistory suggests the continuation of the last "
+              "line to the most recent matching history line. The model is tied to /repo on every run by regenerated constants "
+              "(queue bound, put timeouts, finally-structure), by replaying model-enumerated and random schedules on a "
+              "real Buffer whose awaits, executor jobs and completer thread are gated, by walking every edge of the "
+              "stand-alone hand-off's state graph on the real generator_to_async_generator (real queue, real "
+              "timeouts), plus the property oracle on the real objects")
+LEVEL_NOTE = ("partial: atomicity of code between two awaits is asyncio's, linearizability of queue.Queue and atomicity "
+              "of the `quitting` cell are CPython's (assumed); real thread parallelism is represented by interleavings "
+              "of micro-steps that touch the shared state once each; schedules are enforced at gates (executor jobs, "
+              "items of the user's generator), so races inside one gate-to-gate run of a thread are covered by the "
+              "theorems only; history navigation, yank/paste, open_in_editor, ConditionalAutoSuggest and "
+              "DynamicAutoSuggest are not modelled; the model is hand-written and "
+              "validated by the correspondence")
+RULE = ("exhaustive: for each configuration (feature flags x scripted completer x initial document x asynchronous or "
+        "threaded sources) the Lean driver enumerates breadth-first every schedule over the action alphabet up to the "
+        "tier's depth, merging equal model states, and emits a path for every transition; each path is replayed on the "
+        "real Buffer (tasks, executor jobs and the completer thread run only when the schedule says so). For the "
+        "hand-off alone (generator_to_async_generator with n items, buffer_size cap, a consumer that leaves after "
+        "`limit` items) the enumeration reaches a fixed point: every edge of the reachable state graph is replayed; "
+        "paths on which the real producer needs its one-second queue timeouts are sampled. Then seeded random "
+        "schedules up to 40 steps (explicit task start / natural asyncio FIFO order / threaded / hand-off). A case is "
+        "non-trivial when at least one coroutine segment or thread step ran between user actions")
 EXHAUSTIVE = True
 EXHAUSTIVE_SCOPE = {
-    "quick": "all schedules to depth 5-9 (per configuration) over insert/delete/cursor/next/previous/cancel/"
-             "start-completion/tab/validate/history-lines completion + task start + wake-up + cancellation of each coroutine kind; 21 configurations",
-    "thorough": "same alphabet, depth 7-11 per configuration; 21 configurations",
+    "quick": "asynchronous sources: all schedules to depth 5-9 (per configuration) over insert/delete/cursor/next/previous/"
+             "cancel/start-completion/tab/validate/selection/history-lines completion + task start + wake-up + "
+             "cancellation of each coroutine kind, 22 configurations; threaded sources: 11 configurations, depth 4-6 "
+             "after a 3-step prefix, alphabet + producer-thread step; hand-off alone: the complete reachable state "
+             "graph for n <= 3 items, buffer_size <= 2, limit 1..3 or none (about 5300 paths, 10 of those with real "
+             "queue timeouts); AutoSuggestFromHistory: all texts up to length 3 over {a, b, space, newline} x 40 "
+             "histories",
+    "thorough": "same alphabets, depth 7-11 (asynchronous) / 7-8 (threaded); hand-off alone: n <= 4, buffer_size <= 3, "
+                "100 paths with real queue timeouts",
 }
 TRUSTED = ["harness/c15.py gates every await of the scripted completer/validator/suggester and compares "
-           "(exception, text, cursor, complete_state, validation_state/error, suggestion, running flags, "
-           "pending tasks, waiting coroutines) after every step",
-           "Ptk/Model/C15.lean is a hand translation of buffer.py's async machinery (correspondence-checked)",
-           "the harness Application subclass defers create_background_task until the schedule starts the task"]
+           "(exception, text, cursor, complete_state, validation_state/error, suggestion, drawn suggestion, running "
+           "flags, selection, pending tasks, waiting coroutines, producer position, queue contents, `quitting`) after "
+           "every step",
+           "Ptk/Model/C15.lean and Ptk/Model/C15Thread.lean are hand translations of buffer.py's async machinery and of "
+           "eventloop/async_generator.py (correspondence-checked)",
+           "the harness Application subclass defers create_background_task until the schedule starts the task",
+           "threads: the harness wraps run_in_executor of its private event loop (every executor job waits for the "
+           "schedule before it starts and before its result is delivered; jobs run on a ThreadPoolExecutor kept across "
+           "cases), reads the closure cells `q` and `quitting` of the producer's `runner`, and recognises a producer "
+           "blocked in q.put by the waiters of queue.Queue.not_full; no prompt_toolkit or stdlib name is replaced",
+           "harness/gen_c15.py reads buffer_size from the signature of the imported function and the structural flags "
+           "from the AST of the imported modules' source"]
 ASSUMPTIONS = ["asyncio runs the code between two awaits of a coroutine atomically on one thread",
                "tasks created earlier take their first step earlier (FIFO ready queue) in natural mode; the "
                "theorems hold for any start order",
-               "completer / validator / suggester are deterministic functions of the Document they receive"]
-PARTIAL_SCOPE = ["ThreadedCompleter / ThreadedValidator / ThreadedAutoSuggest (thread hand-off) not modelled",
-                 "task cancellation (Application exit) not modelled",
-                 "Document equality also compares the selection; selection_state is always None here",
-                 "history navigation (working_index), yank/paste state, open_in_editor not modelled",
-                 "CompleteEvent flags are passed through to the completer and ignored by the scripted one"]
+               "completer / validator / suggester are deterministic functions of the text and cursor of the Document "
+               "they receive and do not raise anything but ValidationError",
+               "queue.Queue operations are linearizable; a read or write of the closure cell `quitting` is atomic",
+               "an execution with real thread parallelism is equivalent to an interleaving of the model's micro-steps "
+               "(each touches the shared queue / flag at most once); a q.put(timeout=1) on a full queue ends with "
+               "Full after finite time"]
+PARTIAL_SCOPE = ["history navigation (working_index), yank/paste state, open_in_editor, read-only buffers not modelled",
+                 "CompleteEvent flags are passed through to the completer and ignored by the scripted one",
+                 "ConditionalAutoSuggest / DynamicAutoSuggest, DynamicCompleter / DynamicValidator and PromptSession's "
+                 "complete_while_typing / enable_history_search filters are not modelled: completer, validator and "
+                 "suggester are arbitrary functions of the document (AutoSuggestFromHistory is modelled as such a "
+                 "function of document and history; str.splitlines is a parameter, instantiated for '\\n' only)",
+                 "a producer thread that outlives its coroutine (coroutine cancelled a second time while it waits for "
+                 "the thread) is dropped from the model; it has `quitting` set, so abandoned_producer_stops applies",
+                 "cancellation corner (Lean witness abandon_can_strand_getter, not reproducible without a hook inside "
+                 "`runner`): a consumer cancelled between the producer's last Full and its reading of `quitting`, "
+                 "after the queue was drained, leaves one q.get executor thread blocked; nothing stale is shown",
+                 "exceptions raised by user code inside the producer thread are not modelled",
+                 "go_to_completion(index) is covered for the indices Buffer itself passes (complete_next/previous, "
+                 "select_first/last); an out-of-range index given by a caller raises IndexError and is outside the model"]
 ANCHORS = ["src/prompt_toolkit/buffer.py", "src/prompt_toolkit/completion/base.py",
            "src/prompt_toolkit/validation.py", "src/prompt_toolkit/auto_suggest.py",
-           "src/prompt_toolkit/key_binding/bindings/completion.py"]
+           "src/prompt_toolkit/key_binding/bindings/completion.py",
+           "src/prompt_toolkit/eventloop/async_generator.py", "src/prompt_toolkit/eventloop/utils.py",
+           "src/prompt_toolkit/layout/processors.py"]
+# the functions the Lean model follows line by line and the correspondence exercises
+MODELLED = {
+    "src/prompt_toolkit/buffer.py": [
+        "CompletionState.go_to_index", "CompletionState.new_text_and_position",
+        "Buffer.reset", "Buffer._set_text", "Buffer._set_cursor_position", "Buffer.text", "Buffer.cursor_position",
+        "Buffer._text_changed", "Buffer._cursor_position_changed", "Buffer.document", "Buffer.set_document",
+        "Buffer.delete_before_cursor", "Buffer.delete", "Buffer.complete_next", "Buffer.complete_previous",
+        "Buffer.cancel_completion", "Buffer._set_completions", "Buffer.start_history_lines_completion",
+        "Buffer.go_to_completion", "Buffer.apply_completion", "Buffer.start_selection", "Buffer.exit_selection",
+        "Buffer.insert_text", "Buffer.validate", "Buffer._validate_async", "Buffer.start_completion",
+        "Buffer._create_completer_coroutine", "Buffer._create_completer_coroutine.completion_does_nothing",
+        "Buffer._create_completer_coroutine.async_completer",
+        "Buffer._create_completer_coroutine.async_completer.proceed",
+        "Buffer._create_auto_suggest_coroutine.async_suggestor",
+        "Buffer._create_auto_validate_coroutine.async_validator",
+        "_only_one_at_a_time", "_only_one_at_a_time.new_coroutine"],
+    "src/prompt_toolkit/completion/base.py": [
+        "Completion.new_completion_from_position", "ThreadedCompleter.get_completions_async",
+        "get_common_complete_suffix", "get_common_complete_suffix.doesnt_change_before_cursor",
+        "get_common_complete_suffix.get_suffix", "_commonprefix"],
+    "src/prompt_toolkit/eventloop/async_generator.py": [
+        "aclosing", "generator_to_async_generator", "generator_to_async_generator.runner"],
+    "src/prompt_toolkit/eventloop/utils.py": ["run_in_executor_with_context"],
+    "src/prompt_toolkit/validation.py": ["ThreadedValidator.validate_async"],
+    "src/prompt_toolkit/auto_suggest.py": ["ThreadedAutoSuggest.get_suggestion_async",
+                                           "AutoSuggestFromHistory.get_suggestion"],
+    "src/prompt_toolkit/key_binding/bindings/completion.py": ["generate_completions"],
+    "src/prompt_toolkit/layout/processors.py": ["AppendAutoSuggestion.apply_transformation"],
+}
 TECHNIQUE = "Lean 4 proof over an executable transition system + schedule-replay correspondence + oracle"
 
 # ------------------------------------------------------------------ scripted user code
@@ -99,6 +189,23 @@ def sugg_fn(s, text, cur):
     if (len(text) + a * cur) % p == r:
         return None
     return last_n(text, 2) + lit
+
+
+class _BC:
+    """what AppendAutoSuggestion reads of a BufferControl"""
+
+    def __init__(self, buffer):
+        self.buffer = buffer
+
+
+_APPEND = AppendAutoSuggestion()
+
+
+def shown_suggestion(b) -> str:
+    """the text the real AppendAutoSuggestion processor appends to the last line of the buffer"""
+    d = b.document
+    ti = TransformationInput(_BC(b), d, d.line_count - 1, lambda i: i, [], 80, 1)
+    return _APPEND.apply_transformation(ti).fragments[-1][1]
 
 
 class Gate:
@@ -197,6 +304,449 @@ class GSuggest(AutoSuggest):
             sim.active["s"] -= 1
 
 
+# ------------------------------------------------------------------ thread hand-off under a schedule
+# Everything prompt_toolkit hands to another thread goes through `loop.run_in_executor`
+# (`run_in_executor_with_context(runner)`, `loop.run_in_executor(None, q.get)`, the Threaded*
+# wrappers).  The harness wraps that method of its private loop: every job waits for the schedule
+# before it starts and before its result is delivered to the loop; the user's synchronous
+# completer waits for the schedule before every item.  No prompt_toolkit or stdlib name is
+# replaced; the queue, its timeouts and the executor threads are the real ones.
+WAIT = 60.0        # generous: the machine is shared; a real deadlock is reported after this long
+QUIT_WAIT = 15.0   # a producer that was told to quit needs two one-second `Full` timeouts at most
+# circuit breaker: when the code under test really deadlocks, every affected case would wait for the full
+# time-out; after a few of them (per worker process) the waits become short and closes stop being "honest"
+_HUNG = [0]
+HUNG_MAX = 3
+
+
+def patience(t):
+    return t if _HUNG[0] < HUNG_MAX else min(t, 2.5)
+
+
+
+class HarnessTimeout(Exception):
+    pass
+
+
+class Job:
+    def __init__(self, owner, fn, args):
+        self.owner, self.fn, self.args = owner, fn, args
+        self.start = threading.Event()
+        self.finished = threading.Event()
+        self.deliver = threading.Event()
+        self.started = False
+        self.entered = False
+        self.delivered = False
+        self.afut = None
+        self.thread = None
+        target = args[0] if args else fn
+        self.kind = getattr(target, "__name__", "?")      # runner | get | run_validation_thread | ...
+        self.target = target
+
+    def cells(self):
+        f = self.target
+        if getattr(f, "__closure__", None) is None:
+            return {}
+        return dict(zip(f.__code__.co_freevars, f.__closure__))
+
+    def run(self):
+        self.entered = True
+        self.owner.wake.set()
+        self.start.wait()
+        self.thread = threading.current_thread()
+        if self.kind == "runner":
+            self.owner.hand_by_thread[threading.get_ident()] = self.hand
+        try:
+            return self.fn(*self.args)
+        finally:
+            self.finished.set()
+            self.owner.wake.set()
+            self.deliver.wait()
+
+
+class Hand:
+    """one call of generator_to_async_generator: producer job, queue, `quitting` cell, gates"""
+
+    def __init__(self, owner, job):
+        self.owner, self.job = owner, job
+        job.hand = self
+        c = job.cells()
+        self.q = c["q"].cell_contents
+        self.quit_cell = c["quitting"]
+        self.get_iterable = c["get_iterable"].cell_contents
+        self.getter = None          # latest q.get job
+        self.sem = threading.Semaphore(0)
+        self.arrived = threading.Event()
+        self.pos = -1               # index of the gate the producer waits at / passed last
+        self.released = -1          # index of the last gate released
+        self.n = None
+        self.yielded = []
+        self.killed = False
+        self.detached = False
+        self.calls_at_quit = None
+
+    @property
+    def quitting(self):
+        try:
+            return bool(self.quit_cell.cell_contents)
+        except ValueError:
+            return False
+
+    def document(self):
+        f = self.get_iterable
+        if getattr(f, "__closure__", None):
+            c = dict(zip(f.__code__.co_freevars, f.__closure__))
+            if "document" in c:
+                return c["document"].cell_contents
+        return None
+
+    # -- called in the producer thread by the user's generator
+    def at_gate(self, k):
+        self.pos = k
+        self.arrived.set()
+        self.owner.wake.set()
+        while not self.sem.acquire(timeout=0.05):
+            if self.owner.abort:
+                return
+
+    # -- called by the harness
+    def blocked_in_put(self):
+        try:
+            return len(self.q.not_full._waiters) > 0
+        except Exception:
+            return False
+
+    def settle(self):
+        """wait until the producer thread cannot go on by itself"""
+        job = self.job
+        if not job.started:
+            return
+        deadline = time.time() + patience(WAIT)
+        t_quit = None
+        while True:
+            if job.finished.is_set() or self.arrived.is_set():
+                return
+            if self.blocked_in_put():
+                if not self.quitting:
+                    return
+                # told to quit while it waits for room: it needs two `Full` timeouts at most
+                if t_quit is None:
+                    t_quit = time.time()
+                elif time.time() - t_quit > patience(QUIT_WAIT):
+                    _HUNG[0] += 1
+                    raise HarnessTimeout("producer thread keeps waiting for room in the queue although the "
+                                         "consumer has quit")
+            if time.time() > deadline:
+                _HUNG[0] += 1
+                raise HarnessTimeout("producer thread does not settle")
+            self.owner.wake.wait(0.0002)
+            self.owner.wake.clear()
+
+    def release(self):
+        """the schedule lets the producer go on: thread start, or the next item of the generator"""
+        job = self.job
+        if not job.started:
+            job.started = True
+            job.start.set()
+        elif self.arrived.is_set() and not job.finished.is_set():
+            self.arrived.clear()
+            self.released = self.pos
+            self.sem.release()
+        self.settle()
+
+    def pc(self):
+        job = self.job
+        if not job.started:
+            return "w"
+        if job.finished.is_set():
+            return "x"
+        if self.arrived.is_set():
+            return "n%d" % self.pos
+        if self.n is not None and self.released >= self.n:
+            return "f"
+        return "p%d" % self.released
+
+    def enc_q(self):
+        out = []
+        for it in list(self.q.queue):
+            idx = next((i for i, y in enumerate(self.yielded) if y is it), None)
+            out.append("D" if idx is None else str(idx))
+        return ".".join(out) if out else "e"
+
+    def stage(self):
+        g = self.getter
+        if g is None or g.delivered:
+            return "r"
+        if g.finished.is_set():
+            return "i"
+        return "g"
+
+
+class DaemonPool:
+    """A thread pool with the interface run_in_executor needs (`submit` returning a
+    concurrent.futures.Future), kept across cases so that a case does not pay for starting threads.
+    Unlike ThreadPoolExecutor its threads are daemons: when the code under test really deadlocks, a
+    thread that is blocked for ever must not keep the checking process from exiting."""
+
+    def __init__(self):
+        import queue as _queue
+        self.q = _queue.SimpleQueue()
+        self.lock = threading.Lock()
+        self.idle = 0
+        self.queued = 0
+
+    def submit(self, fn, *args, **kw):
+        from concurrent.futures import Future
+        f = Future()
+        with self.lock:
+            self.queued += 1
+            spawn = self.queued > self.idle
+        if spawn:
+            threading.Thread(target=self._worker, daemon=True, name="c15-pool").start()
+        self.q.put((f, fn, args, kw))
+        return f
+
+    def _worker(self):
+        while True:
+            with self.lock:
+                self.idle += 1
+            f, fn, args, kw = self.q.get()
+            with self.lock:
+                self.idle -= 1
+                self.queued -= 1
+            if not f.set_running_or_notify_cancel():
+                continue
+            try:
+                r = fn(*args, **kw)
+            except BaseException as e:      # noqa: BLE001 - handed to the future, like ThreadPoolExecutor does
+                f.set_exception(e)
+            else:
+                f.set_result(r)
+
+
+_POOL = None
+_POOL_PID = None
+
+
+def get_pool():
+    """the executor used in place of the loop's default one (per process)"""
+    global _POOL, _POOL_PID
+    if _POOL is None or _POOL_PID != os.getpid():
+        _POOL = DaemonPool()
+        _POOL_PID = os.getpid()
+    return _POOL
+
+
+class Threads:
+    """mixin: a private loop whose run_in_executor is gated"""
+
+    def init_threads(self):
+        self.jobs = []
+        self.hands = []
+        self.hand_by_thread = {}
+        self.abort = False
+        self.wake = threading.Event()
+        orig = self.loop.run_in_executor
+
+        def rie(executor, func, *args):
+            job = Job(self, func, args)
+            self.jobs.append(job)
+            if job.kind == "runner":
+                self.hands.append(Hand(self, job))
+            elif job.kind == "get":
+                q = getattr(func, "__self__", None)
+                for h in reversed(self.hands):
+                    if h.q is q:
+                        h.getter = job
+                        break
+            job.afut = orig(get_pool() if executor is None else executor, job.run)
+            # wait until a worker thread has picked the job up: a job that is cancelled while it still
+            # sits in the pool's queue is dropped by the pool, which would make the schedule depend on
+            # thread start-up times
+            t0 = time.time()
+            while not job.entered and time.time() - t0 < WAIT:
+                self.wake.wait(0.0002)
+                self.wake.clear()
+            return job.afut
+
+        self.loop.run_in_executor = rie
+
+    def spin(self, job):
+        """run the loop until the result of `job` has reached it"""
+        deadline = time.time() + patience(WAIT)
+        while not job.afut.done():
+            self.loop.run_until_complete(asyncio.sleep(0))
+            if time.time() > deadline:
+                _HUNG[0] += 1
+                raise HarnessTimeout("executor result does not reach the loop")
+        job.delivered = True
+
+    def run_job(self, job):
+        """start (if needed), wait for and deliver one executor job"""
+        if not job.started:
+            job.started = True
+            job.start.set()
+        if not job.finished.wait(patience(WAIT)):
+            _HUNG[0] += 1
+            raise HarnessTimeout("executor job does not finish")
+        job.deliver.set()
+        self.spin(job)
+
+    @staticmethod
+    def never_runs(j):
+        """a job whose future was cancelled before a worker thread picked it up is dropped by the pool"""
+        if j.entered or j.afut is None or not j.afut.cancelled():
+            return False
+        t0 = time.time()
+        while not j.entered and time.time() - t0 < 0.005:
+            time.sleep(0.0005)
+        return not j.entered
+
+    def finish_tasks(self):
+        """cancel what is left on the loop and run it until every task has ended (a cancelled consumer
+        still waits for its producer thread, whose result reaches the loop a little later)"""
+        for t in asyncio.all_tasks(self.loop):
+            t.cancel()
+        t0 = time.time()
+        for i in range(2000):
+            self.loop.run_until_complete(asyncio.sleep(0))
+            left = [t for t in asyncio.all_tasks(self.loop) if not t.done()]
+            if not left and i >= 2:
+                break
+            if time.time() - t0 > 2.0:
+                break
+            if left and i > 5:
+                for t in left:
+                    t.cancel()
+                time.sleep(0.0002)
+
+    def close_threads(self, drain=False):
+        """let every thread run to its end; report threads that do not end.  `drain`: also empty the
+        queues meanwhile, so that a producer waiting for room does not need its one-second timeouts."""
+        self.abort = True
+        stuck = []
+        if _HUNG[0] >= HUNG_MAX:
+            drain = True
+        for j in self.jobs:
+            j.started = True
+            j.start.set()
+            j.deliver.set()
+        for h in self.hands:
+            for _ in range(4):
+                h.sem.release()
+        deadline = time.time() + patience(QUIT_WAIT)
+        for j in self.jobs:
+            if j.kind == "get" or self.never_runs(j):
+                continue
+            while not j.finished.is_set():
+                if time.time() > deadline:
+                    stuck.append(j.kind)
+                    _HUNG[0] += 1
+                    break
+                if drain:
+                    for h in self.hands:
+                        try:
+                            while True:
+                                h.q.get_nowait()
+                        except Exception:
+                            pass
+                j.finished.wait(0.0005 if drain else 0.05)
+        if stuck and not drain:
+            # reported; now help the thread to its end so that it does not linger
+            t0 = time.time()
+            while time.time() - t0 < 2.0 and any(not j.finished.is_set() for j in self.jobs if j.kind != "get"):
+                for h in self.hands:
+                    try:
+                        while True:
+                            h.q.get_nowait()
+                    except Exception:
+                        pass
+                time.sleep(0.001)
+        # q.get jobs of cancelled consumers wait for an element that never comes: wake them
+        for j in self.jobs:
+            if j.kind == "get" and not j.finished.is_set():
+                if self.never_runs(j):
+                    continue
+                q = getattr(j.fn, "__self__", None)
+                t0 = time.time()
+                while not j.finished.is_set() and time.time() - t0 < 2.0:
+                    try:
+                        q.put_nowait(None)
+                    except Exception:
+                        pass
+                    j.finished.wait(0.01)
+        return stuck
+
+
+class GSyncCompleter(Completer):
+    """the user's synchronous completer (runs in the producer thread of ThreadedCompleter)"""
+
+    def __init__(self, sim):
+        self.sim = sim
+
+    def get_completions(self, document, complete_event):
+        sim = self.sim
+        hand = sim.hand_by_thread.get(threading.get_ident())
+        items = comp_fn(sim.spec, document.text, document.cursor_position)
+        sim.comp_log.append((document.text, document.cursor_position, items))
+        if hand is None:      # called synchronously (not by the harness)
+            for t, s in items:
+                yield Completion(t, s)
+            return
+        hand.n = len(items)
+        with sim.lock:
+            sim.active["c"] += 1
+            live = sum(1 for h in sim.hands if h.job.started and not h.job.finished.is_set() and not h.quitting)
+            sim.max_active["c"] = max(sim.max_active["c"], live)
+        try:
+            for k, (t, s) in enumerate(items):
+                hand.at_gate(k)
+                c = Completion(t, s)
+                hand.yielded.append(c)
+                yield c
+            hand.at_gate(len(items))
+        finally:
+            with sim.lock:
+                sim.active["c"] -= 1
+
+
+class GSyncValidator(Validator):
+    def __init__(self, sim):
+        self.sim = sim
+
+    def validate(self, document):
+        sim = self.sim
+        with sim.lock:
+            sim.active["v"] += 1
+            sim.max_active["v"] = max(sim.max_active["v"], sim.active["v"])
+        try:
+            msg = valid_fn(sim.vspec, document.text, document.cursor_position)
+            sim.val_log.append((document.text, document.cursor_position, msg))
+            if msg is not None:
+                raise ValidationError(cursor_position=0, message=msg)
+        finally:
+            with sim.lock:
+                sim.active["v"] -= 1
+
+
+class GSyncSuggest(AutoSuggest):
+    def __init__(self, sim):
+        self.sim = sim
+
+    def get_suggestion(self, buffer, document):
+        sim = self.sim
+        with sim.lock:
+            sim.active["s"] += 1
+            sim.max_active["s"] = max(sim.max_active["s"], sim.active["s"])
+        try:
+            r = sugg_fn(sim.sspec, document.text, document.cursor_position)
+            sim.sug_log.append((document.text, document.cursor_position, r))
+            return None if r is None else Suggestion(r)
+        finally:
+            with sim.lock:
+                sim.active["s"] -= 1
+
+
 class HApp(Application):
     """Application whose background tasks start only when the schedule says so."""
 
@@ -243,10 +793,12 @@ def task_kind(coro):
 DEFAULT_CFG = {"cwt": 1, "hasV": 1, "vwt": 1, "hasS": 1, "maxN": 10000}
 
 
-class Sim:
+class Sim(Threads):
     """One real Buffer on a private event loop, with gated user code."""
 
     def __init__(self, case):
+        self.thr = bool(case.get("thr"))
+        self.lock = threading.Lock()
         cfg = dict(DEFAULT_CFG, **case.get("cfg", {}))
         self.cfg = cfg
         self.spec = [tuple(x) for x in case["comp"]]
@@ -266,10 +818,16 @@ class Sim:
         self.app.sim = self
         self._ctx = set_app(self.app)
         self._ctx.__enter__()
+        self.init_threads()
+        if self.thr:
+            comp, val, sug = (ThreadedCompleter(GSyncCompleter(self)), ThreadedValidator(GSyncValidator(self)),
+                              ThreadedAutoSuggest(GSyncSuggest(self)))
+        else:
+            comp, val, sug = GCompleter(self), GValidator(self), GSuggest(self)
         self.buf = Buffer(
-            completer=GCompleter(self),
-            validator=GValidator(self) if cfg["hasV"] else None,
-            auto_suggest=GSuggest(self) if cfg["hasS"] else None,
+            completer=comp,
+            validator=val if cfg["hasV"] else None,
+            auto_suggest=sug if cfg["hasS"] else None,
             complete_while_typing=bool(cfg["cwt"]),
             validate_while_typing=bool(cfg["vwt"]),
             max_number_of_completions=cfg["maxN"],
@@ -281,7 +839,7 @@ class Sim:
         kind = task_kind(coro)
         if self.natural:
             t = self.loop.create_task(coro)
-            self.tasks.append(t)
+            self.tasks.append((kind, t))
             self.pending.append((kind, None))
             return t
         self.pending.append((kind, coro))
@@ -294,21 +852,40 @@ class Sim:
                 break
         if self.natural:
             self.pending.clear()
-        for t in self.tasks:
+        for _, t in self.tasks:
             if t.done() and not t.cancelled() and t.exception() is not None and self.task_err is None:
                 self.task_err = type(t.exception()).__name__
-        self.tasks = [t for t in self.tasks if not t.done()]
+        self.tasks = [(k, t) for k, t in self.tasks if not t.done()]
+
+    # -- threaded sources
+    def live_hand(self):
+        """the hand-off of the completer coroutine that holds the `running` flag"""
+        if not self.hands or not closure_var(self.buf._async_completer, "running"):
+            return None
+        h = self.hands[-1]
+        return None if h.detached else h
+
+    def live_job(self, kind):
+        name = "run_validation_thread" if kind == "v" else "run_get_suggestion_thread"
+        for j in reversed(self.jobs):
+            if j.kind == name and not j.delivered and not getattr(j, "dead", False):
+                return j
+        return None
+
+    def live_task(self, kind):
+        for k, t in self.tasks:
+            if k.startswith(kind) and not t.done():
+                return t
+        return None
 
     def close(self):
         try:
             for _, coro in self.pending:
                 if coro is not None:
                     coro.close()
-            for t in asyncio.all_tasks(self.loop):
-                t.cancel()
-            for _ in range(5):
-                self.loop.run_until_complete(asyncio.sleep(0))
-            self.loop.close()
+            self.stuck = self.close_threads() if self.jobs else []
+            self.finish_tasks()
+            self.loop.close()      # shuts the executor down without waiting: its threads are idle now
         finally:
             self._ctx.__exit__(None, None, None)
             self.app.sim = None
@@ -351,9 +928,53 @@ class Sim:
             elif k == "hist":
                 self.hist_used = True
                 b.start_history_lines_completion()
+            elif k == "ssel":
+                b.start_selection()
+            elif k == "xsel":
+                b.exit_selection()
+            elif k == "kill" and self.thr:
+                t = self.live_task(op[1])
+                waiting = False
+                if op[1] == "c":
+                    h = self.live_hand()
+                    waiting = h is not None
+                    if h is not None:
+                        if h.killed or h.quitting:
+                            h.detached = True      # second cancellation: the thread is left to itself
+                        h.killed = True
+                else:
+                    j = self.live_job(op[1])
+                    waiting = j is not None
+                    if j is not None:
+                        j.dead = True
+                if t is not None and waiting:
+                    t.cancel()
+                    self.quiesce()
             elif k == "kill":
                 if self.gates[op[1]].kill():
                     self.quiesce()
+            elif k == "prun":
+                h = self.live_hand()
+                if h is not None:
+                    h.release()
+            elif k == "rel" and self.thr:
+                if op[1] == "c":
+                    h = self.live_hand()
+                    if h is not None:
+                        if h.quitting:
+                            if h.job.finished.is_set():
+                                self.run_job(h.job)
+                                self.quiesce()
+                        else:
+                            g = h.getter
+                            if g is not None and not g.delivered and (g.finished.is_set() or h.q.qsize() > 0):
+                                self.run_job(g)
+                                self.quiesce()
+                else:
+                    j = self.live_job(op[1])
+                    if j is not None:
+                        self.run_job(j)
+                        self.quiesce()
             elif k == "killp":
                 if op[1] < len(self.pending):
                     _, coro = self.pending.pop(op[1])
@@ -361,8 +982,8 @@ class Sim:
                         coro.close()
             elif k == "start":
                 if not self.natural and op[1] < len(self.pending):
-                    _, coro = self.pending.pop(op[1])
-                    self.tasks.append(self.loop.create_task(coro))
+                    kind, coro = self.pending.pop(op[1])
+                    self.tasks.append((kind, self.loop.create_task(coro)))
                     self.quiesce()
             elif k == "rel":
                 if not self.natural and self.gates[op[1]].release():
@@ -372,8 +993,8 @@ class Sim:
                     self.quiesce()
                 else:
                     while self.pending:
-                        _, coro = self.pending.pop(0)
-                        self.tasks.append(self.loop.create_task(coro))
+                        kind, coro = self.pending.pop(0)
+                        self.tasks.append((kind, self.loop.create_task(coro)))
                         self.quiesce()
             elif k == "nrel":
                 if self.natural:
@@ -411,16 +1032,292 @@ class Sim:
         sg = "N" if b.suggestion is None else enc_str(b.suggestion.text)
         run = "".join("1" if closure_var(f, "running") else "0"
                       for f in (b._async_completer, b._async_validator, b._async_suggester))
+        run += "1" if b.selection_state is not None else "0"
         pend = ",".join(k for k, _ in self.pending) or "-"
         w = []
+        if self.thr:
+            h = self.live_hand()
+            if h is not None:
+                d = h.document()
+                if h.quitting:
+                    stage = "zk" if h.killed else "z"
+                else:
+                    stage = h.stage()
+                w.append("ct:%s:%d:%s:%s:%s:%d" % (enc_str(d.text), d.cursor_position, stage, h.pc(),
+                                                   "-" if stage == "zk" else h.enc_q(), 1 if h.quitting else 0))
+            for kind in "vs":
+                j = self.live_job(kind)
+                if j is not None:
+                    d = j.cells()["document"].cell_contents
+                    w.append("%s:%s:%d" % (kind, enc_str(d.text), d.cursor_position))
         for _, (t, c, i), _ in self.gates["c"].waiters:
             w.append("c:%s:%d:%d" % (enc_str(t), c, i))
         for _, (t, c), _ in self.gates["v"].waiters:
             w.append("v:%s:%d" % (enc_str(t), c))
         for _, (t, c), _ in self.gates["s"].waiters:
             w.append("s:%s:%d" % (enc_str(t), c))
-        return "%s %s %d %s %s %s %s %s %s %s" % (status, enc_str(b.text), b.cursor_position, css, vs,
-                                                  verr, sg, run, pend, ",".join(w) or "-")
+        return "%s %s %d %s %s %s %s %s %s %s %s" % (status, enc_str(b.text), b.cursor_position, css, vs,
+                                                     verr, sg, enc_str(shown_suggestion(b)), run, pend,
+                                                     ",".join(w) or "-")
+
+
+# ------------------------------------------------------------------ the hand-off alone (family "hand")
+class HandSim(Threads):
+    """generator_to_async_generator(iterable of n items, buffer_size=cap) read by a consumer that leaves
+    the loop after `limit` items (the way ThreadedCompleter reads it: `async with aclosing(..)`)."""
+
+    def __init__(self, case):
+        self.n, self.cap, self.limit = case["n"], case["cap"], case["limit"]
+        self.loop = asyncio.new_event_loop()
+        self.init_threads()
+        self.received = []
+        self.task = None
+        self.result = None
+        self.stuck = []
+        self.calls = 0
+        self.left_calls = None
+
+    def get_iterable(self):
+        hand = self.hand_by_thread.get(threading.get_ident())
+        hand.n = self.n
+        for k in range(self.n):
+            self.calls += 1
+            hand.at_gate(k)
+            item = ("item", k)
+            hand.yielded.append(item)
+            yield item
+        self.calls += 1
+        hand.at_gate(self.n)
+
+    async def consumer(self):
+        async with aclosing(generator_to_async_generator(self.get_iterable, buffer_size=self.cap)) as agen:
+            try:
+                async for x in agen:
+                    self.received.append(x)
+                    if len(self.received) >= self.limit:
+                        break
+            finally:
+                # the client stops reading here (break, end of the stream, or cancellation)
+                if self.left_calls is None:
+                    self.left_calls = self.calls
+        self.result = "finished"
+
+    def quiesce(self):
+        for _ in range(200):
+            self.loop.run_until_complete(asyncio.sleep(0))
+            if not self.loop._ready:
+                break
+
+    @property
+    def hand(self):
+        return self.hands[0] if self.hands else None
+
+    def apply(self, op):
+        k = op[0]
+        h = self.hand
+        if k == "hstart":
+            if self.task is None:
+                self.task = self.loop.create_task(self.consumer())
+                self.quiesce()
+                self.hand.settle()
+        elif k == "hp":
+            if h is not None:
+                h.release()
+        elif k == "htake":
+            if h is not None and self.cons() in ("reading", "closingK"):
+                g = h.getter
+                if g is not None and not g.started and h.q.qsize() > 0:
+                    g.started = True
+                    g.start.set()
+                    if not g.finished.wait(patience(WAIT)):
+                        _HUNG[0] += 1
+                        raise HarnessTimeout("q.get does not return")
+                    h.settle()
+        elif k == "hrel":
+            if h is not None and self.task is not None and not self.task.done() and not h.quitting:
+                g = h.getter
+                if g is not None and not g.delivered and g.finished.is_set():
+                    self.run_job(g)
+                    self.quiesce()
+                    h.settle()
+        elif k == "hkill":
+            if self.task is not None and not self.task.done():
+                h.killed = True
+                self.task.cancel()
+                self.quiesce()
+                h.settle()
+        elif k == "hfin":
+            if h is not None and self.task is not None and not self.task.done() and h.quitting \
+                    and h.job.finished.is_set():
+                self.run_job(h.job)
+                self.quiesce()
+        else:
+            raise ValueError(op)
+
+    def cons(self):
+        if self.task is None:
+            return "idle"
+        if self.task.done():
+            return "cancelled" if self.task.cancelled() else "finished"
+        h = self.hand
+        if h.quitting:
+            return "closingK" if h.killed else "closing"
+        return "reading"
+
+    def state_line(self):
+        h = self.hand
+        if h is None:
+            return "H idle w e 0 r 0"
+        return "H %s %s %s %d %s %d" % (self.cons(), h.pc(), h.enc_q(), 1 if h.quitting else 0, h.stage(),
+                                        len(self.received))
+
+    def close(self, honest=False):
+        """cancel the consumer (its `finally` sets `quitting`), release every gate and wait for the
+        threads.  `honest`: do not help the producer by draining the queue (it then needs its real
+        one-second timeouts when it waits for room) — the end-of-case liveness check."""
+        try:
+            if self.task is not None and not self.task.done():
+                self.task.cancel()
+                self.quiesce()
+            self.stuck = self.close_threads(drain=not honest)
+            self.finish_tasks()
+        finally:
+            self.loop.close()
+
+
+def hand_model_lines(case):
+    return ["hinit %d %d %d" % (case["n"], case["cap"], case["limit"])] + [op[0] for op in case["ops"]]
+
+
+def hand_impl_lines(case):
+    sim = HandSim(case)
+    try:
+        out = [sim.state_line()]
+        for op in case["ops"]:
+            sim.apply(op)
+            out.append(sim.state_line())
+        return out
+    finally:
+        sim.close()
+
+
+def hand_oracle(case):
+    """the hand-off part of the property on the real objects: the consumer receives a prefix of the
+    iterable's items in order (all of them when it sees the end); the queue never exceeds buffer_size;
+    an abandoned producer asks the iterable at most once more and returns; every thread ends"""
+    v = []
+    sim = HandSim(case)
+
+    def bad(sig, msg):
+        v.append({"signature": sig, "msg": msg})
+
+    try:
+        for n, op in enumerate(case["ops"]):
+            sim.apply(op)
+            where = "step %d %r" % (n, op)
+            want = [("item", i) for i in range(len(sim.received))]
+            if sim.received != want:
+                bad("generator_to_async_generator | consumer does not see a prefix of the items in order",
+                    "%s: received %r" % (where, sim.received))
+            h = sim.hand
+            if h is not None:
+                if h.q.qsize() > sim.cap:
+                    bad("generator_to_async_generator | queue larger than buffer_size",
+                        "%s: %d queued" % (where, h.q.qsize()))
+                if sim.left_calls is not None and sim.calls - sim.left_calls > 1:
+                    bad("generator_to_async_generator | abandoned producer keeps computing",
+                        "%s: %d next() calls after the consumer stopped reading" % (where, sim.calls - sim.left_calls))
+            if sim.task is not None and sim.task.done() and not sim.task.cancelled():
+                if sim.task.exception() is not None:
+                    bad("generator_to_async_generator | consumer raises", "%s: %r" % (where, sim.task.exception()))
+                elif h is not None and not h.job.finished.is_set():
+                    bad("generator_to_async_generator | consumer finished before the producer thread",
+                        "%s" % where)
+                elif len(sim.received) < min(sim.limit, sim.n):
+                    bad("generator_to_async_generator | stream ended early",
+                        "%s: %d of %d items" % (where, len(sim.received), sim.n))
+    except HarnessTimeout as e:
+        bad("generator_to_async_generator | a thread does not make progress", str(e))
+    finally:
+        # the honest end-of-case check costs up to two real seconds when the producer waits for room
+        # in a full queue while the consumer has not quit yet: only for the cases budgeted as slow
+        h = sim.hand
+        cheap = h is None or not h.job.started or h.job.finished.is_set() or h.q.qsize() < sim.cap
+        sim.close(honest=cheap or bool(case.get("slow")))
+    if sim.stuck:
+        bad("generator_to_async_generator | producer thread does not terminate",
+            "after the consumer was closed and every gate released: %r still running" % (sim.stuck,))
+    if sim.left_calls is not None and sim.calls - sim.left_calls > 1:
+        bad("generator_to_async_generator | abandoned producer keeps computing",
+            "%d next() calls after the consumer stopped reading" % (sim.calls - sim.left_calls))
+    seen, out = set(), []
+    for x in v:
+        if x["signature"] not in seen:
+            seen.add(x["signature"])
+            out.append(x)
+    return out
+
+
+# ------------------------------------------------------------------ AutoSuggestFromHistory (family "sugg")
+def sugg_model_lines(case):
+    return ["hsugg %d %s %s" % (len(case["hist"]), " ".join(enc_str(h) for h in case["hist"]),
+                                enc_str(case["text"]))] if case["hist"] else \
+           ["hsugg 0 %s" % enc_str(case["text"])]
+
+
+def _hist_buffer(hist):
+    h = InMemoryHistory()
+    for e in hist:
+        h.append_string(e)
+    return Buffer(history=h)
+
+
+def sugg_impl_lines(case):
+    r = AutoSuggestFromHistory().get_suggestion(_hist_buffer(case["hist"]), Document(case["text"]))
+    return ["N" if r is None else enc_str(r.text)]
+
+
+def sugg_oracle(case):
+    """what is suggested continues the last line of the text to a line of a history entry — the most recent
+    such entry, its last such line; nothing is suggested only if the last line is blank or no line matches"""
+    v = []
+    hist, text = case["hist"], case["text"]
+    r = AutoSuggestFromHistory().get_suggestion(_hist_buffer(hist), Document(text))
+    last = text.rsplit("\n", 1)[-1]
+    matches = [(i, j, line) for i, e in enumerate(hist) for j, line in enumerate(e.splitlines())
+               if line.startswith(last)]
+    if r is None:
+        if last.strip() and matches:
+            v.append({"signature": "AutoSuggestFromHistory | no suggestion although a history line continues the text",
+                      "msg": "text %r history %r" % (text, hist)})
+    else:
+        if not last.strip():
+            v.append({"signature": "AutoSuggestFromHistory | suggestion for a blank line", "msg": "%r" % (text,)})
+        elif not matches or last + r.text != max(matches)[2]:
+            v.append({"signature": "AutoSuggestFromHistory | suggestion does not continue the text to the most "
+                                   "recent matching history line",
+                      "msg": "text %r history %r suggestion %r" % (text, hist, r.text)})
+    return v
+
+
+def sugg_cases(tier, rng):
+    alpha = ["a", "b", " ", "\n"]
+    import itertools
+    out = []
+    maxlen = 3 if tier == "quick" else 4
+    words = ["".join(t) for n in range(maxlen + 1) for t in itertools.product(alpha, repeat=n)]
+    texts = [w for w in words if len(w) <= 3]
+    entries = ["", "a", "ab", "a\nab", "ab\na", "b a", " a", "ab\n", "\nab", "a\n\nb"]
+    for t in texts:
+        for h1 in entries:
+            out.append({"fam": "sugg", "hist": [h1], "text": t})
+            for h2 in ("ab", "a\nab", "b"):
+                out.append({"fam": "sugg", "hist": [h1, h2], "text": t})
+    for _ in range(300 if tier == "quick" else 5000):
+        hist = ["".join(rng.choice(alpha + ["a", "b"]) for _ in range(rng.randrange(0, 7))) for _ in range(rng.randrange(0, 4))]
+        text = "".join(rng.choice(alpha + ["a", "b"]) for _ in range(rng.randrange(0, 6)))
+        out.append({"fam": "sugg", "hist": hist, "text": text})
+    return out
 
 
 # ------------------------------------------------------------------ protocol lines
@@ -429,11 +1326,24 @@ class Sim:
 FIX_D1 = 1
 
 
+def _default_buffer_size():
+    """`buffer_size` ThreadedCompleter ends up with: the default of generator_to_async_generator"""
+    import inspect
+    try:
+        return int(inspect.signature(generator_to_async_generator).parameters["buffer_size"].default)
+    except Exception:
+        return 1000
+
+
+QCAP = _default_buffer_size()
+
+
 def init_line(case) -> str:
     cfg = dict(DEFAULT_CFG, **case.get("cfg", {}))
     v = case.get("valid", (1, 3, 0))
     s = case.get("sugg", (0, 2, 0, "!"))
     parts = ["init", cfg["cwt"], cfg["hasV"], cfg["vwt"], cfg["hasS"], cfg["maxN"], FIX_D1,
+             1 if case.get("thr") else 0, 0,      # 0: the driver takes Gen.C15.bufferSize (regenerated)
              v[0], v[1], v[2], s[0], s[1], s[2], enc_str(s[3]),
              enc_str(case["text"]), case["cur"], len(case["comp"])]
     for back, echo, lit in case["comp"]:
@@ -464,6 +1374,8 @@ def parse_op(s: str):
         return [k, int(t[1]), int(t[2])]
     if k in ("rel", "nrel", "kill"):
         return [k, t[1]]
+    if k == "#slow":
+        return None
     if k == "apply":
         return [k, core.dec_str(t[1]), int(t[2])]
     if k == "reset":
@@ -472,10 +1384,18 @@ def parse_op(s: str):
 
 
 def model_lines(case):
+    if case.get("fam") == "hand":
+        return hand_model_lines(case)
+    if case.get("fam") == "sugg":
+        return sugg_model_lines(case)
     return [init_line(case)] + [op_line(op) for op in case["ops"]]
 
 
 def impl_lines(case):
+    if case.get("fam") == "hand":
+        return hand_impl_lines(case)
+    if case.get("fam") == "sugg":
+        return sugg_impl_lines(case)
     with warnings.catch_warnings():
         warnings.simplefilter("ignore")
         sim = Sim(case)
@@ -539,15 +1459,31 @@ def check_state(sim, v, where):
         # provenance: computed by the completer for the original document
         full = comp_fn(sim.spec, od.text, od.cursor_position)
         ok = comps == full[:len(comps)]
+        wrong_meaning = None
         if not ok:
             for (dt, dc, items) in sim.comp_log:
                 if len(od.text) > len(dt) and len(comps) <= len(items):
                     cp = od.text[dc:dc + len(od.text) - len(dt)]
                     if (cp and od.text == dt[:dc] + cp + dt[dc:] and od.cursor_position == dc + len(cp)
                             and comps == [(t[len(cp) - s:], 0) for t, s in items[:len(comps)]]):
-                        ok = True
+                        # the shortened completions must still mean what the completer computed: applied
+                        # to the new document they give the text the original ones gave on the old one
+                        same = all(expected_apply(od.text, od.cursor_position, nt, ns) == expected_apply(dt, dc, t0, s0)
+                                   for (nt, ns), (t0, s0) in zip(comps, items))
+                        if same:
+                            ok = True
+                        else:
+                            wrong_meaning = (cp, dt, dc, items[:len(comps)])
         if not ok and sim.hist_used:
             ok = comps == hist_expected(od.text, od.cursor_position)
+        if not ok and wrong_meaning is not None:
+            ok = True      # reported under its own signature
+            cp, dt, dc, items = wrong_meaning
+            bad("insert_common_part | a completion no longer gives the text the completer computed",
+                "after inserting the common part %r the completions %r of %r were replaced by %r, which give %r "
+                "instead of %r" % (cp, items, (dt, dc), comps,
+                                   [expected_apply(od.text, od.cursor_position, t, s)[0] for t, s in comps],
+                                   [expected_apply(dt, dc, t, s)[0] for t, s in items]))
         if not ok:
             bad("Buffer.complete_state | completions not computed for the original document",
                 "completion list is stale (completer gives %r for the original document)" % (full,))
@@ -563,12 +1499,44 @@ def check_state(sim, v, where):
     if b.suggestion is not None:
         if not any(t == b.text and r == b.suggestion.text for (t, c, r) in sim.sug_log):
             bad("Buffer.suggestion | suggestion not computed for the current text", "stale suggestion")
+    shown = shown_suggestion(b)
+    if shown and (b.cursor_position != len(b.text)
+                  or not any(t == b.text and r == shown for (t, c, r) in sim.sug_log)):
+        bad("AppendAutoSuggestion | draws a suggestion that does not continue the current text",
+            "%r drawn behind %r (cursor %d)" % (shown, b.text, b.cursor_position))
     for kind, name in (("c", "completer"), ("v", "validator"), ("s", "suggester")):
-        if sim.active[kind] > 1 or len(sim.gates[kind].waiters) > 1:
+        if sim.thr:
+            # threads inside the user's code; a completer thread whose consumer has quit (it finishes
+            # its current item and returns) and jobs of cancelled coroutines do not count
+            if kind == "c":
+                n = sum(1 for h in sim.hands
+                        if h.job.started and not h.job.finished.is_set() and not h.quitting)
+            else:
+                n = 1 if sim.live_job(kind) is not None else 0
+                n = max(n, sum(1 for j in sim.jobs
+                               if j.kind == ("run_validation_thread" if kind == "v" else "run_get_suggestion_thread")
+                               and not j.delivered and not getattr(j, "dead", False)))
+            if n > 1 or sim.max_active[kind] > 1 and kind == "c":
+                bad("_only_one_at_a_time | two %ss active" % name, "more than one %s running" % name)
+        elif sim.active[kind] > 1 or len(sim.gates[kind].waiters) > 1:
             bad("_only_one_at_a_time | two %ss active" % name, "more than one %s running" % name)
+    if sim.thr:
+        for h in sim.hands:
+            calls = h.pos + 1
+            if h.quitting and h.calls_at_quit is None:
+                h.calls_at_quit = calls
+            if h.calls_at_quit is not None and calls - h.calls_at_quit > 1:
+                bad("generator_to_async_generator | abandoned producer keeps computing",
+                    "%d next() calls after the consumer quit" % (calls - h.calls_at_quit))
+            if h.q.qsize() > QCAP:
+                bad("generator_to_async_generator | queue larger than buffer_size", "%d queued" % h.q.qsize())
 
 
 def oracle(case):
+    if case.get("fam") == "hand":
+        return hand_oracle(case)
+    if case.get("fam") == "sugg":
+        return sugg_oracle(case)
     v = []
     with warnings.catch_warnings():
         warnings.simplefilter("ignore")
@@ -590,7 +1558,7 @@ def oracle(case):
                     if dangling:
                         v.append({"signature": DANGLING, "msg": "%s raised %r" % (where, sim.last_exc)})
                     elif k in ("next", "prev", "cancel", "tab", "ins", "delb", "del", "cur", "text", "startc",
-                               "vsync", "reset", "apply", "hist"):
+                               "vsync", "reset", "apply", "hist", "ssel", "xsel"):
                         v.append({"signature": "Buffer.%s | raises" % k,
                                   "msg": "%s raised %r" % (where, sim.last_exc)})
                 elif st.startswith("taskerr"):
@@ -617,8 +1585,14 @@ def oracle(case):
                                       "msg": "%s: text=%r cur=%d, original %r,%d" % (
                                           where, b.text, b.cursor_position, ot, oc)})
                 check_state(sim, v, where)
+        except HarnessTimeout as e:
+            v.append({"signature": "threaded source | a thread or the coroutine waiting for it does not make progress",
+                      "msg": str(e)})
         finally:
             sim.close()
+    if getattr(sim, "stuck", None):
+        v.append({"signature": "generator_to_async_generator | producer thread does not terminate",
+                  "msg": "after every gate was released: %r still running" % (sim.stuck,)})
     seen, out = set(), []
     for x in v:
         if x["signature"] not in seen:
@@ -638,6 +1612,7 @@ COMPS = {
     "dup3": [[0, False, "x"], [0, False, "xy"], [0, False, "x"]],
     "single_chg": [[1, False, "Z"]],                # no common part, exactly one match
     "noop_then": [[1, True, ""], [0, False, "k"]],
+    "mixed": [[1, True, "xy"], [1, False, "Q"], [1, True, "xz"]],   # one completion rewrites the text before the cursor
 }
 
 A_USER = ["ins_s:97", "delb_1", "cur_-1", "next_1_0", "prev_1_0", "cancel"]
@@ -653,9 +1628,10 @@ def enum_configs(tier):
         out.append(({"cfg": dict(off), "comp": COMPS[name], "text": "a", "cur": 1},
                     ["ins_s:97", "hist", "prev_1_0", "startc_%d" % mode, "start_0", "rel_c"], 9, 11))
     # completer only, explicit start in each mode
-    for name, mode, dq, dt in (("ext2", 0, 6, 7), ("ext2", 3, 6, 8), ("noop1", 0, 6, 7), ("chg3", 1, 6, 7),
+    for name, mode, dq, dt in (("ext2", 0, 5, 7), ("ext2", 3, 6, 8), ("noop1", 0, 5, 7), ("chg3", 1, 5, 7),
                                ("chg3", 2, 5, 7), ("single_chg", 3, 6, 8), ("one", 3, 6, 8),
-                               ("dup3", 3, 6, 8), ("noop_then", 0, 5, 7), ("empty", 0, 5, 7)):
+                               ("dup3", 3, 6, 8), ("noop_then", 0, 5, 7), ("empty", 0, 5, 7),
+                               ("mixed", 3, 6, 8)):
         out.append(({"cfg": dict(off), "comp": COMPS[name], "text": "ab", "cur": 2},
                     A_USER + ["startc_%d" % mode, "tab"] + A_SCHED_C, dq, dt))
     # complete while typing (tasks created by insert_text), two pending tasks compete
@@ -663,10 +1639,10 @@ def enum_configs(tier):
                 A_USER + ["tab", "start_0", "start_1", "rel_c"], 6, 7))
     # validator only
     out.append(({"cfg": dict(off, hasV=1, vwt=1), "comp": [], "text": "ab", "cur": 2, "valid": [1, 3, 0]},
-                ["ins_s:97", "delb_1", "cur_-1", "cur_+1", "vsync", "start_0", "start_1", "rel_v"], 6, 8))
+                ["ins_s:97", "delb_1", "cur_-1", "cur_+1", "vsync", "ssel", "xsel", "start_0", "start_1", "rel_v"], 6, 8))
     # suggester only
     out.append(({"cfg": dict(off, hasS=1), "comp": [], "text": "ab", "cur": 2, "sugg": [1, 3, 0, "!"]},
-                ["ins_s:97", "delb_1", "cur_-1", "cur_+1", "start_0", "start_1", "rel_s"], 7, 9))
+                ["ins_s:97", "delb_1", "cur_-1", "cur_+1", "ssel", "xsel", "start_0", "start_1", "rel_s"], 6, 8))
     # everything at once
     out.append(({"cfg": dict(DEFAULT_CFG), "comp": COMPS["ext2"], "text": "a", "cur": 1},
                 ["ins_s:97", "delb_1", "cur_-1", "next_1_0", "cancel", "tab", "start_0", "rel_c", "rel_v",
@@ -685,17 +1661,152 @@ def enum_configs(tier):
     return out
 
 
-def enum_paths(skel, alphabet, depth, max_states=400000):
+def enum_paths(skel, alphabet, depth, max_states=400000, prefix=()):
     exe = os.path.join(core.LEAN, ".lake", "build", "bin", DRIVER)
     if not os.path.exists(exe):
         return []
-    inp = init_line(dict(skel, ops=[])) + "\n" + "enum %d %d %s\n" % (depth, max_states, " ".join(alphabet))
+    pre = "".join(op_line(o) + "\n" for o in prefix)
+    inp = init_line(dict(skel, ops=[])) + "\n" + pre + "enum %d %d %s\n" % (depth, max_states, " ".join(alphabet))
+    r = subprocess.run([exe], input=inp, capture_output=True, text=True, timeout=1800)
+    lines = r.stdout.split("\n")
+    k = 1 + len(prefix)
+    if r.returncode != 0 or len(lines) < k + 1 or not lines[k].startswith("paths "):
+        return []
+    parts = lines[k].split(" | ")[1:]
+    return [list(prefix) + [parse_op(o) for o in p.split(";")] for p in parts if p]
+
+
+# ------------------------------------------------------------------ threaded families
+A_THR_C = ["ins_s:97", "delb_1", "next_1_0", "cancel", "start_0", "prun", "rel_c", "kill_c"]
+
+
+def thr_configs(tier):
+    """(case skeleton, prefix ops, alphabet, depth quick, depth thorough) with ThreadedCompleter /
+    ThreadedValidator / ThreadedAutoSuggest around synchronous gated user code.  The enumeration starts
+    after the prefix (completion requested, coroutine started, producer thread at its first item)."""
+    off = {"cwt": 0, "hasV": 0, "vwt": 0, "hasS": 0}
+    out = []
+    small = ["ins_s:97", "next_1_0", "start_0", "prun", "rel_c", "kill_c"]
+    for name, mode, alpha, dq, dt in (("ext2", 3, A_THR_C, 6, 8), ("ext2", 0, A_THR_C, 5, 8),
+                                      ("noop1", 0, small, 5, 7), ("chg3", 1, small, 5, 7), ("one", 3, small, 5, 7),
+                                      ("empty", 0, small, 4, 7), ("chg3", 2, small, 5, 7)):
+        out.append(({"thr": 1, "cfg": dict(off), "comp": COMPS[name], "text": "ab", "cur": 2},
+                    [["startc", mode], ["start", 0], ["prun"]], alpha + ["startc_%d" % mode], dq, dt))
+    # the limit is reached while the thread still produces
+    out.append(({"thr": 1, "cfg": dict(off, maxN=2), "comp": COMPS["chg3"], "text": "ab", "cur": 2},
+                [["startc", 0], ["start", 0], ["prun"]], small + ["tab"], 5, 7))
+    # complete while typing: a second coroutine is created while the first waits for its thread
+    out.append(({"thr": 1, "cfg": dict(off, cwt=1), "comp": COMPS["ext2"], "text": "a", "cur": 1},
+                [], ["ins_s:97", "delb_1", "tab", "start_0", "start_1", "prun", "rel_c", "kill_c"], 5, 8))
+    # threaded validator and suggester
+    out.append(({"thr": 1, "cfg": dict(off, hasV=1, vwt=1, hasS=1), "comp": [], "text": "ab", "cur": 2,
+                 "valid": [1, 3, 0], "sugg": [1, 3, 0, "!"]},
+                [], ["ins_s:97", "delb_1", "ssel", "vsync", "start_0", "start_1", "rel_v", "rel_s", "kill_v",
+                     "kill_s"], 5, 7))
+    # everything threaded at once
+    out.append(({"thr": 1, "cfg": dict(DEFAULT_CFG), "comp": COMPS["ext2"], "text": "a", "cur": 1},
+                [], ["ins_s:97", "delb_1", "next_1_0", "tab", "start_0", "prun", "rel_c", "rel_v", "rel_s"], 5, 7))
+    return out
+
+
+HAND_ALPHA = ["hstart", "hp", "htake", "hrel", "hkill", "hfin"]
+
+
+def hand_paths(n, cap, limit, depth=16, max_states=400000):
+    """every edge of the reachable (macro-step) state graph of the stand-alone hand-off; the flag tells
+    whether the path goes through real one-second `Full` timeouts"""
+    exe = os.path.join(core.LEAN, ".lake", "build", "bin", DRIVER)
+    if not os.path.exists(exe):
+        return []
+    inp = "hinit %d %d %d\nenum %d %d %s\n" % (n, cap, limit, depth, max_states, " ".join(HAND_ALPHA))
     r = subprocess.run([exe], input=inp, capture_output=True, text=True, timeout=1800)
     lines = r.stdout.split("\n")
     if r.returncode != 0 or len(lines) < 2 or not lines[1].startswith("paths "):
         return []
-    parts = lines[1].split(" | ")[1:]
-    return [[parse_op(o) for o in p.split(";")] for p in parts if p]
+    out = []
+    for p in lines[1].split(" | ")[1:]:
+        if p:
+            ops = p.split(";")
+            out.append(([[o] for o in ops if o != "#slow"], "#slow" in ops))
+    return out
+
+
+def hand_cases(tier):
+    fast, slow = [], []
+    ns = (0, 1, 2, 3) if tier == "quick" else (0, 1, 2, 3, 4)
+    caps = (1, 2) if tier == "quick" else (1, 2, 3)
+    for n in ns:
+        for cap in caps:
+            for limit in (1, 2, 3, 99):
+                if limit != 99 and limit > max(n, 1):
+                    continue
+                for ops, is_slow in hand_paths(n, cap, limit):
+                    c = {"fam": "hand", "n": n, "cap": cap, "limit": limit, "ops": ops}
+                    if is_slow:
+                        c["slow"] = 1
+                    (slow if is_slow else fast).append(c)
+    want = 6 if tier == "quick" else 100
+    if len(slow) > want:
+        step = len(slow) / float(want)
+        slow = [slow[int(i * step)] for i in range(want)]
+    return fast, slow
+
+
+def rand_thr_case(rng):
+    cfg = {"cwt": rng.randrange(2), "hasV": rng.randrange(2), "vwt": rng.randrange(2), "hasS": rng.randrange(2),
+           "maxN": rng.choice([1, 2, 3, 10000, 10000, 10000])}
+    text = "".join(rng.choice(RA) for _ in range(rng.choice([0, 1, 2, 3])))
+    cur = rng.choice([len(text), len(text), rng.randrange(0, len(text) + 1)])
+    case = {"thr": 1, "cfg": cfg, "comp": rand_spec(rng), "text": text, "cur": cur,
+            "valid": [rng.randrange(2), rng.choice([1, 2, 3]), 0],
+            "sugg": [rng.randrange(2), rng.choice([1, 2, 3]), rng.randrange(2), rng.choice(["", "!", "zz"])],
+            "mode": "deferred"}
+    ops = []
+    for _ in range(rng.choice([4, 8, 12, 20, 30])):
+        r = rng.random()
+        if r < 0.55:
+            ops.append(rng.choice([["start", 0], ["start", 0], ["start", rng.randrange(3)], ["prun"], ["prun"],
+                                   ["prun"], ["rel", "c"], ["rel", "c"], ["rel", "c"], ["rel", "v"], ["rel", "s"],
+                                   ["kill", rng.choice("cvs")], ["killp", rng.randrange(2)]]))
+        elif r < 0.68:
+            ops.append(["ins", "".join(rng.choice(RA) for _ in range(rng.choice([0, 1, 1, 2])))])
+        elif r < 0.74:
+            ops.append(rng.choice([["delb", rng.randrange(3)], ["del", rng.randrange(3)]]))
+        elif r < 0.78:
+            ops.append(["cur", rng.randrange(-1, 6)])
+        elif r < 0.84:
+            ops.append(rng.choice([["next", rng.choice([1, 1, 2, 5]), 0], ["prev", rng.choice([1, 1, 2, 5]), 0]]))
+        elif r < 0.87:
+            ops.append(["cancel"])
+        elif r < 0.94:
+            ops.append(["startc", rng.randrange(4)])
+        elif r < 0.96:
+            ops.append(["tab"])
+        elif r < 0.97:
+            ops.append(["hist"])
+        elif r < 0.975:
+            ops.append(["vsync"])
+        elif r < 0.985:
+            ops.append(rng.choice([["ssel"], ["ssel"], ["xsel"]]))
+        elif r < 0.99:
+            ops.append(["text", "".join(rng.choice(RA) for _ in range(rng.randrange(4)))])
+        else:
+            t = "".join(rng.choice(RA) for _ in range(rng.randrange(3)))
+            ops.append(["reset", t, rng.randrange(len(t) + 1)])
+    case["ops"] = ops
+    return case
+
+
+def rand_hand_case(rng):
+    n = rng.choice([0, 1, 2, 3, 4, 5, 6])
+    cap = rng.choice([1, 2, 3, 4, 1000])
+    limit = rng.choice([1, 2, 3, 99, 99])
+    ops = [["hstart"]] if rng.random() < 0.8 else []
+    for _ in range(rng.choice([4, 8, 12, 20])):
+        ops.append([rng.choice(["hp", "hp", "hp", "htake", "htake", "hrel", "hrel", "hfin", "hstart", "hkill"]
+                               if rng.random() < 0.9 else ["hkill"])])
+    # keep clear of the expensive corner (a producer waiting for room when the consumer quits) unless asked
+    return {"fam": "hand", "n": n, "cap": cap, "limit": limit, "ops": ops}
 
 
 # ------------------------------------------------------------------ hand-written stress schedules
@@ -799,8 +1910,10 @@ def rand_case(rng, natural):
             ops.append(["tab"])
         elif r < 0.95:
             ops.append(["hist"])
-        elif r < 0.96:
+        elif r < 0.955:
             ops.append(["vsync"])
+        elif r < 0.965:
+            ops.append(rng.choice([["ssel"], ["ssel"], ["xsel"]]))
         elif r < 0.975:
             ops.append(["apply", rng.choice(["", "q", "ab"]), -rng.randrange(3)])
         elif r < 0.99:
@@ -818,28 +1931,78 @@ _ENUMERATED = set()
 def cases(tier, rng):
     # the enumeration does not depend on the seed: a second call for the same tier (source-change
     # escalation with extra seeds) only adds random schedules
+    out = []
+    slow = []
+    first_call = tier not in _ENUMERATED     # later calls: source-change escalation with other seeds
     if tier not in _ENUMERATED:
         _ENUMERATED.add(tier)
         for skel, alphabet, dq, dt in enum_configs(tier):
             depth = dq if tier == "quick" else dt
             for path in enum_paths(skel, alphabet, depth):
-                yield dict(skel, mode="deferred", ops=path)
+                out.append(dict(skel, mode="deferred", ops=path))
+        for skel, prefix, alphabet, dq, dt in thr_configs(tier):
+            depth = dq if tier == "quick" else dt
+            for path in enum_paths(skel, alphabet, depth, prefix=prefix):
+                out.append(dict(skel, mode="deferred", ops=path))
+        fast, slow = hand_cases(tier)
+        out += fast
+    out += sugg_cases(tier, rng)
     nrand = 4000 if tier == "quick" else 50000
     for i in range(nrand):
-        yield rand_case(rng, natural=(i % 3 == 2))
+        out.append(rand_case(rng, natural=(i % 3 == 2)))
+    for i in range(nrand // 4):
+        out.append(rand_thr_case(rng))
+    rh = [rand_hand_case(rng) for i in range(nrand // 8)]
+    for c, is_slow in zip(rh, hand_slow_flags(rh)):
+        if is_slow:
+            if len(slow) < ((4 if tier == "quick" else 140) if first_call else 0):
+                slow.append(dict(c, slow=1))
+        else:
+            out.append(c)
+    # the expensive cases (real one-second queue timeouts) are spread evenly: the work is cut into
+    # consecutive chunks for the worker processes
+    if slow:
+        step = max(1, len(out) // (len(slow) + 1))
+        for i, c in enumerate(slow):
+            out.insert(min(len(out), (i + 1) * step + i), c)
+    for c in out:
+        yield c
 
 
-SCHED = ("start", "rel", "drain", "nrel", "kill", "killp")
+def hand_slow_flags(cases_):
+    """per case: does the model say the producer returns without `_Done` (i.e. through `Full` timeouts)?"""
+    lines, ends = [], []
+    for c in cases_:
+        lines += hand_model_lines(c) + ["slowq"]
+        ends.append(len(lines) - 1)
+    try:
+        res = core.run_driver(DRIVER, lines) if lines else []
+    except Exception:
+        return [False] * len(cases_)
+    return [res[e] == "slow 1" for e in ends]
+
+
+SCHED = ("start", "rel", "drain", "nrel", "kill", "killp", "prun")
 
 
 def nontrivial(case):
+    if case.get("fam") == "sugg":
+        return bool(case["hist"]) and bool(case["text"].strip())
     ops = case["ops"]
+    if case.get("fam") == "hand":
+        # producer and consumer both moved
+        return any(o[0] == "hp" for o in ops) and any(o[0] in ("htake", "hrel", "hkill") for o in ops)
     return any(o[0] in SCHED for o in ops) and any(o[0] not in SCHED for o in ops)
 
 
 def distribution(cases_):
-    d = {"ops": {}, "len": {}, "mode": {}}
+    d = {"ops": {}, "len": {}, "mode": {}, "family": {}}
     for c in cases_:
+        fam = ("hand-off alone" if c.get("fam") == "hand" else "AutoSuggestFromHistory" if c.get("fam") == "sugg"
+               else "threaded sources" if c.get("thr") else "async sources")
+        d["family"][fam] = d["family"].get(fam, 0) + 1
+        if c.get("fam") == "sugg":
+            continue
         d["mode"][c.get("mode", "deferred")] = d["mode"].get(c.get("mode", "deferred"), 0) + 1
         n = len(c["ops"])
         key = str(n) if n < 10 else "10+"
